@@ -177,7 +177,9 @@ theorem RInv.step {cfg : Cfg} {p p' : Proto} {lb : St} (h : RInv cfg p lb) (op :
         · rw [e2, b]; exact d
         · intro c hc; simp only [List.mem_singleton] at hc
           exact ⟨[], List.nil_prefix, by rw [hc, d]; rfl⟩
-      · cases hp
+      · -- `Open()` on a balancer that is opening or open: nothing moves
+        rename_i h0
+        exact RInv.step_other h f eff (by rw [if_neg h0]; exact hp)
     | loaded l e =>
       simp only [protoStep] at hp
       split at hp
@@ -442,7 +444,7 @@ theorem c06Total_ok (cfg : Cfg) (idx : Nat) (lb : St) (res : List ResV) (t : TIn
 /-- after an operation the protocol is past `Open()` -/
 theorem protoStep_phase {p p' : Proto} {op : Op} (h : protoStep p op = some p') : p'.phase ≠ 0 := by
   cases op <;> simp only [protoStep] at h
-  case opn => split at h <;> [(injection h with h; subst h; simp); cases h]
+  case opn => split at h <;> [(injection h with h; subst h; simp); (injection h with h; subst h; assumption)]
   case loaded => split at h <;> [(injection h with h; subst h; simp); cases h]
   case join =>
     split at h
@@ -469,13 +471,7 @@ theorem specC06_trace (cfg : Cfg) (ops : List Op) : ∀ (p : Proto) (lb : St) (i
       rw [hps] at hp
       obtain ⟨h', _, _⟩ := h.step op hps
       obtain ⟨t1, t2⟩ := total_step cfg lb op
-      have hopn : op = .opn → lb.sub.adjLog = [] := by
-        intro e; subst e
-        simp only [protoStep] at hps
-        split at hps
-        · rename_i hc; exact h0 hc
-        · cases hps
-      obtain ⟨o1, o2⟩ := own_step cfg lb op hopn
+      obtain ⟨o1, o2⟩ := own_step cfg lb op
       simp only [TComp.trace]
       show specC06Go cfg idx (flagsOf lb.sub.hs) lb.sub.ema
         ((op, (step cfg lb op).2) :: comp6.trace cfg (step cfg lb op).1 ops) = .ok
@@ -502,13 +498,7 @@ theorem trace_own (cfg : Cfg) (ops : List Op) : ∀ (p : Proto) (lb : St),
     | none => rw [hps] at hp; cases hp
     | some p' =>
       rw [hps] at hp
-      have hopn : op = .opn → lb.sub.adjLog = [] := by
-        intro e; subst e
-        simp only [protoStep] at hps
-        split at hps
-        · rename_i hc; exact h0 hc
-        · cases hps
-      obtain ⟨o1, o2⟩ := own_step cfg lb op hopn
+      obtain ⟨o1, o2⟩ := own_step cfg lb op
       obtain ⟨i1, i2⟩ := ih p' (stepSt cfg lb op).1 (fun hc => absurd hc (protoStep_phase hps)) hp
       have ht : adjRecords (comp6.trace cfg lb (op :: ops)) =
           (stepSt cfg lb op).1.sub.adjLog ++ adjRecords (comp6.trace cfg (stepSt cfg lb op).1 ops) := rfl
